@@ -98,3 +98,139 @@ Definition golden_tables (st1 : state) (t2 : tree) (Ufinal : list (bytes * bytes
   forall p e, assoc_get (s_files st1) p = Some e ->
     exists g1, read_file (s_fs st1) p = Some g1
       /\ read_file t2 p = Some (match assoc_get Ufinal e with Some c => c | None => g1 end).
+
+(* ---- the link between the two set-ups as an executable check.  [rerun_link_ok] unpacks the
+   original and the rewritten file and tests what the lockstep theorem assumes about the two
+   start states: same entry names and script text, second set-up succeeds, trees of the same
+   shape, and every archive entry readable in both trees with the recorded content (or the
+   old one) in the second.  The runner evaluates it on every generated case. *)
+Definition node_eqb (a b : node) : bool :=
+  match a, b with
+  | NFile d m, NFile d' m' => bytes_eqb d d' && N.eqb m m'
+  | NDir m, NDir m' => N.eqb m m'
+  | NLink t, NLink t' => bytes_eqb t t'
+  | _, _ => false
+  end.
+Fixpoint tree_eqb (a b : tree) : bool :=
+  match a, b with
+  | [], [] => true
+  | (p, n) :: a', (q, m) :: b' => path_eqb p q && node_eqb n m && tree_eqb a' b'
+  | _, _ => false
+  end.
+Definition nshape (n : node) : node := match n with NFile _ m => NFile [] m | x => x end.
+Definition tshape (t : tree) : tree := map (fun e => (fst e, nshape (snd e))) t.
+Definition shape_ok (t1 t2 : tree) : bool := tree_eqb (tshape t1) (tshape t2).
+
+Fixpoint names_eqb (a b : list bytes) : bool :=
+  match a, b with
+  | [], [] => true
+  | x :: a', y :: b' => bytes_eqb x y && names_eqb a' b'
+  | _, _ => false
+  end.
+
+Definition tables_ok (st1 : state) (t2 : tree) (U : list (bytes * bytes)) : bool :=
+  forallb (fun pe =>
+             match read_file (s_fs st1) (fst pe), read_file t2 (fst pe) with
+             | Some g1, Some g2 =>
+                 bytes_eqb g2 (match assoc_get U (snd pe) with Some c => c | None => g1 end)
+             | _, _ => false
+             end) (s_files st1).
+
+Definition rerun_link_ok (cfg : config) (work : bytes) (env : list (bytes * bytes)) (file file' : bytes)
+           (U : list (bytes * bytes)) : bool :=
+  let a := parse file in
+  let a' := parse file' in
+  match setup cfg work env a, setup (cfg_update cfg false) work env a' with
+  | (st1, true), (st2, true) =>
+      names_eqb (map fst (files a)) (map fst (files a'))
+      && bytes_eqb (comment a') (comment a)
+      && shape_ok (s_fs st2) (s_fs st1)
+      && tables_ok st1 (s_fs st2) U
+  | _, _ => false
+  end.
+
+(* ---- the class as an executable check (sound for [safe_run], see TsRerunFacts.v) *)
+Inductive guards_verdict := GBlock | GPass (cw : list bytes) | GBad.
+
+Fixpoint guards_dec (cfg : config) (st : state) (words : list bytes) : guards_verdict :=
+  match words with
+  | [] => GBad
+  | w :: rest =>
+      match guard_of w with
+      | None => GPass words
+      | Some (want, c) =>
+          match rest with
+          | [] => GBad
+          | _ =>
+              match cond_eval cfg st c with
+              | CondErr => GBad
+              | CondVal b => if Bool.eqb b want then guards_dec cfg st rest else GBlock
+              end
+          end
+      end
+  end.
+
+Fixpoint mem_b (x : bytes) (l : list bytes) : bool :=
+  match l with [] => false | y :: r => bytes_eqb x y || mem_b x r end.
+
+Definition is_cmp_ref (c : cmd_ref) : bool :=
+  match c with CBuiltin name => bytes_eqb name cmp_name | _ => false end.
+
+(* Some seen' = the line is of the class *)
+Definition line_class_b (cfg : config) (st : state) (line : bytes) (seen : list bytes) : option (list bytes) :=
+  match tokenise (s_env st) line with
+  | None => None
+  | Some [] => Some seen
+  | Some words =>
+      match guards_dec cfg st words with
+      | GBlock => Some seen
+      | GBad => None
+      | GPass cw =>
+          match split_neg cw with
+          | None => None
+          | Some (neg, name, args) =>
+              match lookup_cmd cfg name with
+              | None => None
+              | Some c =>
+                  if tree_free c args then Some seen
+                  else if is_cmp_ref c && negb neg then
+                    match args with
+                    | [src; g] =>
+                        if is_std src then
+                          match assoc_get (s_files st) (mkabs st g) with
+                          | Some entry => if mem_b entry seen then None else Some (entry :: seen)
+                          | None => None
+                          end
+                        else None
+                    | _ => None
+                    end
+                  else None
+              end
+          end
+      end
+  end.
+
+Fixpoint safe_run_b (cfg : config) (ls : list bytes) (n : nat) (st : state) (seen : list bytes) : bool :=
+  match ls with
+  | [] => true
+  | l :: rest =>
+      if is_comment l then safe_run_b cfg rest (S n) st seen
+      else
+        match line_class_b cfg (at_line (S n) false st) l seen with
+        | None => false
+        | Some seen' =>
+            match run_line cfg (at_line (S n) false st) l with
+            | Done st' => if s_stopped st' then true else safe_run_b cfg rest (S n) st' seen'
+            | _ => true
+            end
+        end
+  end.
+
+(* everything the file-level theorem asks of an update run, as one executable check *)
+Definition rerun_covered (cfg : config) (work : bytes) (env : list (bytes * bytes)) (file file' : bytes) : bool :=
+  match setup cfg work env (parse file) with
+  | (st1, true) =>
+      safe_run_b cfg (script_lines (comment (parse file))) 0 st1 []
+      && rerun_link_ok cfg work env file file' (s_updates (r_final (run_file cfg work env file)))
+  | _ => false
+  end.
